@@ -227,14 +227,18 @@ def cli_worker(kp, job):
     rng = random.Random(seed * 236887691 + idx)
     tmp = tempfile.mkdtemp(prefix='kvc20cli_')
     records = []
+    # the directory handed to the converters has glob characters in its name every other run (Chopin [op28]); the tree
+    # also holds a hidden directory and a file whose name starts with a dot
+    TREE = 'tree' if idx % 2 else 'scores [op28] v1'
     try:
         texts = {}
         layout = ['a.krn', 'b.kern', 'sub/c.krn', 'sub/deep/d.krn', 'note.txt', 'sub/a.krn', 'sub/deep/a.krn', 'other/b.kern', 'sub/deep/c.krn',
-                  'song.krn', 'song.v2.krn', 'sub/etude.op10.kern']      # dots inside the base name
+                  'song.krn', 'song.v2.krn', 'sub/etude.op10.kern',      # dots inside the base name
+                  '.c.krn', 'sub/.drafts/e.krn']
         for rel in layout:
             g = docs.gen_doc(rng, max_spines=3, measures=rng.randint(1, 2), rest_in_chord=0, comments=False)
             g.nl = rng.choice(['\n', '\r\n'])
-            p = os.path.join(tmp, 'tree', rel)
+            p = os.path.join(tmp, TREE, rel)
             os.makedirs(os.path.dirname(p), exist_ok=True)
             with open(p, 'w', encoding='utf-8', newline='') as f:
                 f.write(g.text)
@@ -242,7 +246,7 @@ def cli_worker(kp, job):
         # files the converter cannot convert (a cell the grammar rejects) beside the valid ones: they are skipped with a
         # message, every other file of the tree is still converted
         for rel in ('bad.krn', 'sub/bad.krn'):
-            p = os.path.join(tmp, 'tree', rel)
+            p = os.path.join(tmp, TREE, rel)
             with open(p, 'w', encoding='utf-8', newline='') as f:
                 f.write('**kern\n*clefG2\n4c\nQQQ\n*-\n')
             texts[rel] = '**kern\n*clefG2\n4c\nQQQ\n*-\n'
@@ -256,7 +260,7 @@ def cli_worker(kp, job):
             return kp.dumps(d, spine_types=['**kern'], include={TC[c] for c in BEKERN}, encoding=kp.Encoding.eKern)
         viol = []
         # single file, explicit output
-        src = os.path.join(tmp, 'tree', 'a.krn')
+        src = os.path.join(tmp, TREE, 'a.krn')
         out = os.path.join(tmp, 'single.ekrn')
         rc, so, se = cli(['--kern2ekern', '--input_path', src, '--output_path', out], tmp)
         want = api_ekern(texts['a.krn'])
@@ -283,12 +287,12 @@ def cli_worker(kp, job):
         for recursive in (False, True):
             viol = []
             for rel in layout:
-                e = os.path.join(tmp, 'tree', os.path.splitext(rel)[0] + '.ekrn')
+                e = os.path.join(tmp, TREE, os.path.splitext(rel)[0] + '.ekrn')
                 if os.path.exists(e):
                     os.remove(e)
-            rc, so, se = cli(['--kern2ekern', '--input_path', os.path.join(tmp, 'tree')] + (['-r'] if recursive else []), tmp)
+            rc, so, se = cli(['--kern2ekern', '--input_path', os.path.join(tmp, TREE)] + (['-r'] if recursive else []), tmp)
             for rel in layout:
-                e = os.path.join(tmp, 'tree', os.path.splitext(rel)[0] + '.ekrn')
+                e = os.path.join(tmp, TREE, os.path.splitext(rel)[0] + '.ekrn')
                 should = rel.endswith(('.krn', '.kern')) and (recursive or '/' not in rel)
                 want = api_ekern(texts[rel]) if should else None
                 got = open(e, encoding='utf-8', newline='').read() if os.path.exists(e) else None
@@ -301,7 +305,7 @@ def cli_worker(kp, job):
         # every x.ekrn gets a sibling x.krn holding what the API produces
         ek = {}
         for rel in layout:
-            e = os.path.join(tmp, 'tree', os.path.splitext(rel)[0] + '.ekrn')
+            e = os.path.join(tmp, TREE, os.path.splitext(rel)[0] + '.ekrn')
             if os.path.exists(e):
                 ek[os.path.splitext(rel)[0]] = open(e, encoding='utf-8', newline='').read()
         for variant, extra in (('plain', []), ('output-file', ['--output_path', os.path.join(tmp, 'one.krn')]),
